@@ -562,6 +562,15 @@ pub fn eval_undefined(c: &(crate::c14::Raw14, u8, u8)) -> CaseOutcome {
         at += 2;
     }
     lines.insert(at, stmt.clone());
+    // one directly written jump in two is followed, at the end of the file, by a macro use that jumps to the same
+    // undefined label: either use may be cited, nothing else
+    let twice = via_macro == 0 && (*indent / 5) % 2 == 1;
+    if twice {
+        let first_code = p.lines.iter().position(|l| !matches!(l.kind, crate::c14::LK::Data(_))).unwrap_or(0);
+        lines.insert(first_code, "macro jq7(t) -> jz t <-".to_string());
+        at += 1;
+        lines.push("jq7(nowhere_1)".to_string());
+    }
     // one file in three begins with one or two blank lines
     let nblank = (*pos as usize / 6) % 3;
     for _ in 0..nblank {
@@ -589,15 +598,18 @@ pub fn eval_undefined(c: &(crate::c14::Raw14, u8, u8)) -> CaseOutcome {
     let mut it2 = rest2.splitn(2, " : ");
     let col: usize = it2.next().unwrap_or("").trim().parse().unwrap_or(usize::MAX);
     let t = it2.next().unwrap_or("").to_string();
+    if twice && l == lines.len() && t.trim_end() == "jq7(nowhere_1)" && col == 0 {
+        return CaseOutcome::Pass { nontrivial: true, classes: vec!["c16/undefined-label".into(), "c16/undefined-label/used-twice-second-use-cited".into()], digest: fnv_str(&text) };
+    }
     if l != want_line || t.trim_end() != stmt.trim_end() {
-        return CaseOutcome::Fail { key: "c16|undefined|wrong-line".into(), what: format!("jump to an undefined label on line {} ('{}') reported at line {} ('{}')", want_line, stmt, l, t), replay };
+        return CaseOutcome::Fail { key: "c16|undefined|wrong-line".into(), what: format!("jump to an undefined label on line {} ('{}'{}) reported at line {} ('{}')", want_line, stmt, if twice { format!(", used again through a macro on line {}", lines.len()) } else { String::new() }, l, t), replay };
     }
     if col != ind.len() {
         return CaseOutcome::Fail { key: "c16|undefined|wrong-column".into(), what: format!("jump to an undefined label at line {} column {} ('{}') reported at column {}", want_line, ind.len(), stmt, col), replay };
     }
     CaseOutcome::Pass {
         nontrivial: want_line > 1,
-        classes: vec!["c16/undefined-label".into(), if *pos % 2 == 0 { "c16/undefined-label/middle".into() } else { "c16/undefined-label/last-line".into() }, format!("c16/undefined-label/macro-depth-{}", via_macro)],
+        classes: vec!["c16/undefined-label".into(), if *pos % 2 == 0 { "c16/undefined-label/middle".into() } else { "c16/undefined-label/last-line".into() }, format!("c16/undefined-label/macro-depth-{}", via_macro), if twice { "c16/undefined-label/used-twice".into() } else { "c16/undefined-label/used-once".into() }],
         digest: fnv_str(&text),
     }
 }
@@ -676,6 +688,104 @@ fn early_undefined_family(ctx: &Ctx) {
     }
 }
 
+/// (B3) a macro use whose expansion is invalid (directly or through a second macro) is cited at the line, column and text
+/// of the outermost use; a statement that lost a token (the '->' of a macro definition, the comma between two operands)
+/// is cited at its own line
+fn failing_expansion_family(ctx: &Ctx) {
+    use rayon::prelude::*;
+    let bodies: [(&str, &str); 7] = [("inc a", "5"), ("mov a, 70000", "ax"), ("jmp a", "d_0"), ("mov al, a", "bx"), ("add a", "ax"), ("foo a", "ax"), ("mov byte [bx], a", "byte [si]")];
+    let mut jobs: Vec<(String, usize, Option<usize>, String, &'static str)> = Vec::new();
+    for (k, (body, arg)) in bodies.iter().enumerate() {
+        for depth in [1usize, 2] {
+            for ind in ["", "   ", "\t"] {
+                for place in [0usize, 1, 2] {
+                    let mut lines: Vec<String> = Vec::new();
+                    if place == 2 {
+                        lines.push(String::new());
+                        lines.push(String::new());
+                    }
+                    lines.push("d_0: db 1".to_string());
+                    lines.push(format!("macro bad_{}(a) -> {} <-", k, body));
+                    lines.push(format!("macro outer_{}(b) -> nop bad_{}(b) <-", k, k));
+                    lines.push("start: nop".to_string());
+                    if place >= 1 {
+                        lines.push("cld".to_string());
+                        lines.push("  stc".to_string());
+                    }
+                    let stmt = if depth == 1 { format!("{}bad_{}({})", ind, k, arg) } else { format!("{}outer_{}({})", ind, k, arg) };
+                    lines.push(stmt.clone());
+                    let want_line = lines.len();
+                    if place != 1 {
+                        lines.push("print reg".to_string());
+                    }
+                    let mut text = crate::c14::text_of(&lines);
+                    if place == 1 && k % 2 == 0 {
+                        text.pop(); // the failing use is the last line and has no newline
+                    }
+                    jobs.push((text, want_line, Some(ind.len()), stmt, "failing-expansion"));
+                }
+            }
+        }
+    }
+    // lost tokens
+    for (k, (pre, stmt)) in [
+        (vec!["start: nop"], "macro lost(a) inc a <-"),
+        (vec!["d_0: db 1", "", "start: nop", "cld"], "  macro lost(a)  inc a  nop <-"),
+        (vec!["start: nop"], "mov ax 5"),
+        (vec!["d_0: db 1", "start: nop", "stc"], "\tadd word [bx] 7"),
+        (vec!["macro fine(a) -> inc a <-", "start: fine(ax)"], "xchg ax bx"),
+    ]
+    .iter()
+    .enumerate()
+    {
+        let mut lines: Vec<String> = pre.iter().map(|x| x.to_string()).collect();
+        lines.push(stmt.to_string());
+        let want_line = lines.len();
+        if k % 2 == 0 {
+            lines.push("print reg".to_string());
+        }
+        jobs.push((crate::c14::text_of(&lines), want_line, None, stmt.to_string(), "lost-token"));
+    }
+    let outs: Vec<(usize, Option<Failure>)> = jobs
+        .par_iter()
+        .enumerate()
+        .map(|(j, (text, want_line, col, stmt, kind))| {
+            let out = run_cli(text.as_bytes(), Stdin::Closed, false, 1 << 20, 20_000);
+            let replay = json!({"kind":"c16-undefined","source":text,"line":want_line,"column":col});
+            if matches!(out.status, Status::Timeout | Status::SpawnError(_)) {
+                return (j, None);
+            }
+            if !out.clean() {
+                return (j, Some(Failure { key: format!("c16|{}|abnormal-exit", kind), what: format!("status {:?}", out.status), replay }));
+            }
+            let so = out.out_str();
+            let f = match parse_syntax_error(&so) {
+                None => Some(Failure { key: format!("c16|{}|no-position", kind), what: format!("no diagnostic with a position for '{}' on line {}: {:?}", stmt, want_line, so.chars().take(160).collect::<String>()), replay }),
+                Some((l, c, t)) => {
+                    if l != *want_line || t.trim_end() != stmt.trim_end() {
+                        Some(Failure { key: format!("c16|{}|wrong-line", kind), what: format!("the offending statement is on line {} ('{}') but line {} ('{}') is cited", want_line, stmt, l, t.trim_end()), replay })
+                    } else if col.map(|x| x != c).unwrap_or(false) {
+                        Some(Failure { key: format!("c16|{}|wrong-column", kind), what: format!("the offending macro use on line {} begins in column {} but column {} is cited", want_line, col.unwrap_or(0), c), replay })
+                    } else {
+                        None
+                    }
+                }
+            };
+            (j, f)
+        })
+        .collect();
+    for (j, o) in outs {
+        ctx.add_evals(1);
+        match o {
+            Some(f) => ctx.fail(f),
+            None => {
+                ctx.add_nontrivial(1);
+                ctx.class(&format!("c16/{}-cited-at-its-line", jobs[j].4), 1);
+            }
+        }
+    }
+}
+
 pub fn run(ctx: &Ctx) {
     ctx.set_rule("(A) proptest-generated terminating programs (structured generator: loops, calls, procedures with implied and explicit ret, prints, data, INT 3, trap-flag sequences) extended with macro uses of nesting depth 1 and 2 at top level and inside procedures, rendered with random layouts (blank lines, comment lines, several statements per line, labels sharing a line, with/without trailing newline): every emitted instruction's source-map entry, converted with the driver's own get_err_pos, must give the line number and the exact bounds of the line of its statement (use site for macro-made instructions, closing brace for the implied ret); (B1) the same programs with one token replaced by ')' at a generated token position: the driver's preprocess() must report that line, that 0-based column and that line's text; (B2) the single semantic mutations of C14 whose offending statement is one known line (operand misuse, range, size, two memory operands, unsupported instruction / interrupt / directive, data after code, jump to data label): the diagnostic, in-process and through the CLI, must cite that line and its text; (C) through the CLI with -i or trap-flag stepping answered 'n': every 'Output of line', 'About to execute line', 'Int 3 at line', divide-error and unsupported-interrupt message must cite the line (and the text) of the statement the reference interpreter says is executing; (D) a jump to an undefined label at a live position or on the last line, with generated indentation: line, column and text. Non-trivial = the cited construct is not on line 1.");
     ctx.assume("for a duplicate definition either definition's line is acceptable (not checked here); a bare unknown word is detected by an LR parser only at the following token, possibly on the next line (not used as a mutant); message wording is not compared beyond line number, column and line text");
@@ -705,6 +815,8 @@ pub fn run(ctx: &Ctx) {
     let n_d = ctx.tier.pick(150usize, 1_500usize);
     run_cases(ctx, "c16-undefined", n_d, || (crate::c14::raw_s(), any::<u8>(), any::<u8>()), eval_undefined, |_| json!("jump to an undefined label"));
     early_undefined_family(ctx);
+    failing_expansion_family(ctx);
+    ctx.require_class("c16/undefined-label/used-twice", 20);
     ctx.require_class("c16/runtime/cited-line-longer-than-120-bytes", 5);
     ctx.require_class("c16/runtime/file-begins-with-blank-lines", 10);
     for k in ["c16/runtime/print", "c16/runtime/about", "c16/runtime/int3", "c16/runtime/divide-error", "c16/runtime/unsupported-interrupt", "c16/runtime/no-trailing-newline", "c16/semantic/cli", "c16/undefined-label/last-line", "c16/undefined-label/macro-depth-1", "c16/undefined-label/macro-depth-2"] {
